@@ -91,11 +91,11 @@ func (w *wctx) fresh(st *state) goja.Value {
 	if len(st.goStr) > 16 {
 		return w.vm.ToValue(st.goStr)
 	}
-	res, f, ok := w.evalTree(st.wit)
-	if f != nil || !ok {
+	v, rk, _, ok := w.pure(st.wit)
+	if !ok || rk != strmodel.String {
 		panic("c06: witness of a state no longer evaluates: " + st.wit.String())
 	}
-	return res.real
+	return v
 }
 
 func mutable(st *state) bool { return st.val == nil }
